@@ -178,7 +178,11 @@ func runC08(c *core.Ctx) {
 				pubR := &slipelliptic.PublicKey{X: new(big.Int).Set(pk.X), Y: new(big.Int).Set(pk.Y), Curve: raw}
 				var a2, b2, p2 slip10.Key
 				var ea2, eb2 error
-				if p := core.Catch(func() { a2, ea2 = privR.Shift(append([]byte{}, sb...)); b2, eb2 = pubR.Shift(append([]byte{}, sb...)); p2 = privR.Public() }); p != nil {
+				if p := core.Catch(func() {
+					a2, ea2 = privR.Shift(append([]byte{}, sb...))
+					b2, eb2 = pubR.Shift(append([]byte{}, sb...))
+					p2 = privR.Public()
+				}); p != nil {
 					c.Violate(key+"/caller-built-key/panic", fmt.Sprintf("keys built with Curve: %s: %v", rname, p), cas, gt, nil)
 					continue
 				}
